@@ -8,7 +8,8 @@ Driver for C28.  One op line = one run of one streaming API with a failing callb
   `run p=<eachitem|memread|pbf|eachfeature|modtags> g=<n> mp=<n> sizes=[s0 s1 …] fail=[k.j …] mode=<persist|once> multi=<0|1> y=<n>`
       (+ ` kinds=[…]` for pbf — the element kind of every blob, not read by the model —, ` w=<direct|basic|overlay|compact>
       kinds=[…] ph=[…]` for eachfeature)
-  answer `<err|nil|hang|panic> [k.j@w+/t k.j@w!/t …]`   (callback entries in order; `!` = this call returned an error; t = tagged entries)
+  answer `<err|err-other|nil|hang|panic> [k.j@w+/t k.j@w!/t …]`   (`err-other`: an error that is not (errors.Is) the one
+      the callback returned — the op's ` ev=<new|wrapped|canceled|deadline|eof>` says which value that is; callback entries in order; `!` = this call returned an error; t = tagged entries)
       (+ ` lay=[…]` for a compact world: the buckets of every feature block as found in the built index)
 
 Property predicate, evaluated on the implementation's answer alone (`propfail <clause>`):
@@ -103,7 +104,7 @@ def parseAnswer (a : String) : Option (String × List Ev × Option (List (List (
   match words a with
   | [o] => if o == "hang" || o == "panic" then some (o, [], none) else none
   | o :: _ =>
-    if o == "err" || o == "nil" then
+    if o == "err" || o == "nil" || o == "err-other" then
       match (sdrop a (o.length + 1)).splitOn " lay=" with
       | [e] => do
         let evs ← (← parseBracket e).mapM parseEv
@@ -448,6 +449,8 @@ def conform (r : Run) (outcome : String) (evs : List Ev) (lay : Option (List (Li
   let ext := match r.cancel with | some i => decide (i < evs.length) | none => false
   let ret ← replayPhases r.g r.fail ext phases evs
   let model := if ret then "err" else "nil"
+  if outcome == "err-other" then
+    if ret then throw "an-error-is-returned-but-not-the-callback's" else throw s!"model-returns-{model}"
   if model != outcome then throw s!"model-returns-{model}"
 
 def step (_ : Unit) (op impl : String) : Unit × Verdict :=
